@@ -248,6 +248,23 @@ Definition c_app_stop (fixClose fixBuf : bool) (c : client) (id : N) : client * 
   let '(A', (_, evs)) := a_step (c_A c) (AStopErr id E_STOPPED) in
   feed fixClose fixBuf (upd_A c A') evs (kind_evk []).
 
+(* Start has passed the client's own checks and registered the transaction in Client.t; before it reaches the
+   agent, Close runs to completion on another goroutine; then Start goes on: the agent is closed and refuses,
+   Start forgets the transaction and returns the agent's error.  (When Start fails before it gets that far -
+   client closed, ID in use - the two calls simply follow each other.)  Close's observations come first. *)
+Definition c_start_race (fixClose fixBuf : bool) (c : client) (id : N) (raw : list byte) (h : N) : client * list obs :=
+  let t := mkTxn (c_next_inst c) id 0 0 h (c_rto c) raw in
+  let c0 := mkClient (c_closed c) (c_T c) (c_rto c) (c_maxA c) (c_closeConn c) (c_fb c) (c_A c) (c_now c)
+                     (c_fail c) (c_connClosed c) (c_next_inst c + 1) in
+  if c_closed c || match T_find id (c_T c) with Some _ => true | None => false end then
+    let '(c1, o1) := c_start c id raw (Some h) in
+    let '(c2, o2) := c_close fixClose fixBuf c1 in (c2, o1 ++ o2)
+  else
+    let c1 := upd_T c0 (c_T c0 ++ [t]) in
+    let '(c2, o2) := c_close_core fixClose fixBuf (set_closed c1) in
+    let '(A', (r, _)) := a_step (c_A c2) (AStart id (c_now c + 1 * c_rto c)%Z) in
+    (upd_T (upd_A c2 A') (T_remove id (c_T c2)), o2 ++ [ORet CNil] ++ [ORet (CAgentErr r)]).
+
 Definition new_client (rto : Z) (maxA : N) (closeConn : bool) (fb : option N) : client :=
   mkClient false [] rto maxA closeConn fb (new_agent 1) 0 [] 0 0.
 
@@ -264,7 +281,8 @@ Inductive cop : Type :=
 | CTickRace (now : Z)
 | CDeliverRace (datagram : list byte)
 | CForeign (id : N)
-| CAppStop (id : N).
+| CAppStop (id : N)
+| CStartRace (id : N) (raw : list byte) (h : N).
 
 Definition c_step (fixClose fixBuf : bool) (tid_of : list byte -> N) (c : client) (o : cop) : client * list obs :=
   match o with
@@ -280,6 +298,7 @@ Definition c_step (fixClose fixBuf : bool) (tid_of : list byte -> N) (c : client
   | CDeliverRace d => c_deliver_race fixClose fixBuf c d tid_of
   | CForeign id => (c_foreign c id, [])
   | CAppStop id => c_app_stop fixClose fixBuf c id
+  | CStartRace id raw h => c_start_race fixClose fixBuf c id raw h
   end.
 
 Fixpoint c_run (fixClose fixBuf : bool) (tid_of : list byte -> N) (c : client) (ops : list cop)
